@@ -15,7 +15,8 @@ EXHAUSTIVE = {"quick": "26 rankings x 108 variants x 5 namings; all 66430 string
                           "18275 datasets as files"}
 ASSUMPTIONS = ["equality of datasets read back is decided by TLC on the projected rankings (bag equality), not by the "
                "library's __eq__", "each parser call runs under a 2 s watchdog (a hang is a failure mode)",
-               "the scanner itself is not transcribed into TLA+ (DESIGN 6 C18: it would only feed drift reports)"]
+               "the scanner is transcribed in spec/TextScan.tla; its prediction of which strings are accepted is compared "
+               "with the library as drift only"]
 _impl = {}
 
 
@@ -67,10 +68,14 @@ def run_parse(case):
 
 def run_total(case):
     R = _impl["Ranking"]
-    rec = {"id": case["id"], "kind": "total", "first": case["strings"][0], "n": len(case["strings"]), "outs": []}
+    rec = {"id": case["id"], "kind": "total", "first": case["strings"][0], "n": len(case["strings"]), "outs": [],
+           "chars": [list(s) for s in case["strings"]]}
+    import contextlib
+    import io
     for s in case["strings"]:
         try:
-            core.with_alarm(2, R.from_string, s)
+            with contextlib.redirect_stdout(io.StringIO()):        # the parser prints before raising
+                core.with_alarm(2, R.from_string, s)
             rec["outs"].append("ok")
         except core.Timeout:
             rec["outs"].append("hang")
@@ -118,7 +123,10 @@ def file_cases(dss):
 
 
 def models(tier):
-    return [Model("TextFormat", "TextFormat_thm_small.cfg" if tier == "quick" else "TextFormat_thm.cfg",
+    return [Model("MC_TextScan", "MC_TextScan_4.cfg" if tier == "quick" else "MC_TextScan_5.cfg",
+                  "scanner model (Python find/slice semantics transcribed): terminates on every string up to the bound "
+                  "with outcome ok/ValueError only; reads back every rendered text"),
+            Model("TextFormat", "TextFormat_thm_small.cfg" if tier == "quick" else "TextFormat_thm.cfg",
                   "the rendered text determines the ranking (Render is injective across variants), 5 naming kinds")]
 
 
